@@ -1,5 +1,6 @@
 //! Shared helpers for the /verif harness binaries: ndjson I/O, a seeded PRNG and
 //! panic capture.  Deliberately tiny and dependency-free beyond serde.
+pub mod model;
 use serde_json::Value;
 use std::fs::File;
 use std::io::{BufRead, BufReader, BufWriter, Write};
